@@ -3,12 +3,22 @@
 package httputil_test
 
 import (
+	"bufio"
 	"bytes"
+	"crypto/ecdsa"
+	"crypto/elliptic"
+	"crypto/rand"
+	"crypto/sha256"
+	"crypto/tls"
+	"crypto/x509"
+	"crypto/x509/pkix"
+	"encoding/hex"
 	"fmt"
 	"io"
+	"log"
+	"math/big"
 	"net"
 	"net/http"
-	"net/http/httptest"
 	"os"
 	"path/filepath"
 	"sort"
@@ -24,18 +34,22 @@ import (
 	"github.com/uber/kraken/utils/verifh"
 )
 
-// C34 harness: calls the real httputil.Send against an httptest server scripted per request
-// (read the whole request then hijack-and-close; or answer with a status) and records what the
-// server received on every attempt (method, URI, headers, body bytes, body read error) and what
-// Send returned. Keep-alives are off on both sides so every attempt uses a fresh connection and
-// net/http never replays a request on its own.
+// C34 harness: calls the real httputil.Send against one server that speaks TLS and plain HTTP on
+// the same port (the https→http fallback keeps host and port) and is scripted per connection:
+// answer with a status; read the whole request then close; read k body bytes then close; close
+// before reading anything (TLS handshake included). It records what it received on every attempt
+// (scheme, method, URI, headers, body, framing) and what Send returned. Unless a case asks for
+// keep-alive, every attempt uses a fresh connection, so net/http never replays a request itself.
 
 type c34Server struct {
-	srv    *httptest.Server
 	mu     sync.Mutex
 	caseID int // requests carry it as a path prefix /c<id>: a straggler of an earlier case is ignored
 	script []string
+	next   int // script entries consumed so far
 	seen   []string
+	ln     net.Listener
+	srv    *http.Server
+	url    string // host:port
 }
 
 var c34AutoHeaders = map[string]bool{"User-Agent": true, "Accept-Encoding": true, "Content-Length": true,
@@ -52,43 +66,161 @@ func c34HdrTok(h http.Header) string {
 	return verifh.SortedList(hs)
 }
 
+// c34BodyTok: bodies up to 64 bytes in hex, larger ones as length + hash.
+func c34BodyTok(b []byte) string {
+	if len(b) <= 64 {
+		return verifh.Hex(b)
+	}
+	h := sha256.Sum256(b)
+	return fmt.Sprintf("b%d.%s", len(b), hex.EncodeToString(h[:8]))
+}
+
+// peekConn lets the listener look at the first byte of a connection.
+type peekConn struct {
+	net.Conn
+	r *bufio.Reader
+}
+
+func (c *peekConn) Read(p []byte) (int, error) { return c.r.Read(p) }
+
+// c34Listener closes connections the script refuses and routes TLS / plain HTTP by the first byte.
+type c34Listener struct {
+	net.Listener
+	s   *c34Server
+	cfg *tls.Config
+}
+
+func (l *c34Listener) Accept() (net.Conn, error) {
+	for {
+		c, err := l.Listener.Accept()
+		if err != nil {
+			return nil, err
+		}
+		l.s.mu.Lock()
+		refuse := l.s.next < len(l.s.script) && l.s.script[l.s.next] == "refuse"
+		if refuse {
+			l.s.next++
+		}
+		l.s.mu.Unlock()
+		if refuse {
+			c.Close()
+			continue
+		}
+		pc := &peekConn{Conn: c, r: bufio.NewReader(c)}
+		c.SetReadDeadline(time.Now().Add(30 * time.Second))
+		b, err := pc.r.Peek(1)
+		c.SetReadDeadline(time.Time{})
+		if err != nil {
+			c.Close()
+			continue
+		}
+		if b[0] == 0x16 {
+			return tls.Server(pc, l.cfg), nil
+		}
+		return pc, nil
+	}
+}
+
+func c34Cert() tls.Certificate {
+	key, err := ecdsa.GenerateKey(elliptic.P256(), rand.Reader)
+	if err != nil {
+		panic(err)
+	}
+	tmpl := &x509.Certificate{SerialNumber: big.NewInt(1), Subject: pkix.Name{CommonName: "verif"},
+		NotBefore: time.Now().Add(-time.Hour), NotAfter: time.Now().Add(24 * time.Hour),
+		IPAddresses: []net.IP{net.ParseIP("127.0.0.1")}, KeyUsage: x509.KeyUsageDigitalSignature,
+		ExtKeyUsage: []x509.ExtKeyUsage{x509.ExtKeyUsageServerAuth}}
+	der, err := x509.CreateCertificate(rand.Reader, tmpl, tmpl, &key.PublicKey, key)
+	if err != nil {
+		panic(err)
+	}
+	return tls.Certificate{Certificate: [][]byte{der}, PrivateKey: key}
+}
+
+func c34Drop(w http.ResponseWriter) {
+	conn, brw, err := w.(http.Hijacker).Hijack()
+	if err != nil {
+		panic(err)
+	}
+	brw.Flush()
+	switch c := conn.(type) {
+	case *tls.Conn:
+		c.CloseWrite()
+	case *peekConn:
+		if tc, ok := c.Conn.(*net.TCPConn); ok {
+			tc.CloseWrite()
+		}
+	}
+	conn.SetReadDeadline(time.Now().Add(2 * time.Second))
+	io.Copy(io.Discard, conn)
+	conn.Close()
+}
+
 func (s *c34Server) ServeHTTP(w http.ResponseWriter, r *http.Request) {
-	body, rerr := io.ReadAll(r.Body)
 	s.mu.Lock()
 	uri := r.URL.RequestURI()
 	prefix := fmt.Sprintf("/c%d", s.caseID)
 	if !strings.HasPrefix(uri, prefix+"/") {
 		s.mu.Unlock()
+		io.Copy(io.Discard, r.Body)
 		w.WriteHeader(410)
 		return
 	}
 	uri = uri[len(prefix):]
-	i := len(s.seen)
-	if i >= 200 {
+	act := "net"
+	if s.next < len(s.script) {
+		act = s.script[s.next]
+	}
+	s.next++
+	over := len(s.seen) >= 200
+	s.mu.Unlock()
+	if over {
 		// a retry loop that does not stop: keep answering, stop recording
-		s.mu.Unlock()
+		io.Copy(io.Discard, r.Body)
 		w.WriteHeader(503)
 		return
 	}
-	s.seen = append(s.seen, fmt.Sprintf("a:%s|%s|%s|%s|%s", r.Method, verifh.Str(uri), c34HdrTok(r.Header),
-		verifh.Hex(body), verifh.Bool(rerr != nil)))
-	act := "net"
-	if i < len(s.script) {
-		act = s.script[i]
+	scheme := "P"
+	if r.TLS != nil {
+		scheme = "S"
 	}
-	s.mu.Unlock()
+	framing := "chunked"
+	if r.ContentLength >= 0 {
+		framing = "cl" + strconv.FormatInt(r.ContentLength, 10)
+	}
+	head := fmt.Sprintf("a:%s|%s|%s|%s|", scheme, r.Method, verifh.Str(uri), c34HdrTok(r.Header))
+	record := func(tok string) {
+		s.mu.Lock()
+		s.seen = append(s.seen, tok)
+		s.mu.Unlock()
+	}
+	if strings.HasPrefix(act, "n") && act != "net" {
+		k, _ := strconv.Atoi(act[1:])
+		buf := make([]byte, k)
+		n, err := io.ReadFull(r.Body, buf)
+		if err == nil {
+			// is there more? then the server stops here by script
+			var one [1]byte
+			m, _ := r.Body.Read(one[:])
+			if m > 0 {
+				record(head + fmt.Sprintf("p%d|p|%s", k, framing))
+				c34Drop(w)
+				return
+			}
+		}
+		// the body was not longer than k: it was read completely
+		if err != nil && err != io.EOF && err != io.ErrUnexpectedEOF {
+			record(head + c34BodyTok(buf[:n]) + "|1|" + framing)
+		} else {
+			record(head + c34BodyTok(buf[:n]) + "|0|" + framing)
+		}
+		c34Drop(w)
+		return
+	}
+	body, rerr := io.ReadAll(r.Body)
+	record(head + c34BodyTok(body) + "|" + verifh.Bool(rerr != nil) + "|" + framing)
 	if act == "net" {
-		conn, brw, err := w.(http.Hijacker).Hijack()
-		if err != nil {
-			panic(err)
-		}
-		brw.Flush()
-		if tc, ok := conn.(*net.TCPConn); ok {
-			tc.CloseWrite()
-			conn.SetReadDeadline(time.Now().Add(30 * time.Second))
-			io.Copy(io.Discard, conn)
-		}
-		conn.Close()
+		c34Drop(w)
 		return
 	}
 	code, _ := strconv.Atoi(act[1:])
@@ -99,6 +231,19 @@ func (s *c34Server) ServeHTTP(w http.ResponseWriter, r *http.Request) {
 }
 
 var c34Srv *c34Server
+
+func c34Start() {
+	s := &c34Server{}
+	ln, err := net.Listen("tcp", "127.0.0.1:0")
+	if err != nil {
+		panic(err)
+	}
+	s.ln = &c34Listener{Listener: ln, s: s, cfg: &tls.Config{Certificates: []tls.Certificate{c34Cert()}}}
+	s.url = ln.Addr().String()
+	s.srv = &http.Server{Handler: s, ErrorLog: log.New(io.Discard, "", 0)}
+	go s.srv.Serve(s.ln)
+	c34Srv = s
+}
 
 // c34Backoff answers 0 (no sleep) n times, then Stop (Send never calls Reset).
 type c34Backoff struct{ left int }
@@ -119,7 +264,7 @@ func (o c34OnlyReader) Read(p []byte) (int, error) { return o.r.Read(p) }
 // c34Seeker is a ReadSeeker that is not one of net/http's known in-memory readers.
 type c34Seeker struct{ r *bytes.Reader }
 
-func (s c34Seeker) Read(p []byte) (int, error)                 { return s.r.Read(p) }
+func (s c34Seeker) Read(p []byte) (int, error)                { return s.r.Read(p) }
 func (s c34Seeker) Seek(off int64, whence int) (int64, error) { return s.r.Seek(off, whence) }
 
 func c34KV(toks []string, k string) (string, bool) {
@@ -146,9 +291,45 @@ func c34Codes(tok string) ([]int, bool) {
 	return out, true
 }
 
-var c34Transport = &http.Transport{DisableKeepAlives: true}
+var (
+	c34Plain     = &http.Transport{DisableKeepAlives: true}
+	c34PlainKA   = &http.Transport{}
+	c34Secure    = &http.Transport{DisableKeepAlives: true, TLSClientConfig: &tls.Config{InsecureSkipVerify: true}}
+	c34SecureKA  = &http.Transport{TLSClientConfig: &tls.Config{InsecureSkipVerify: true}}
+	c34Broken    int
+	c34bodyCache = map[string][]byte{}
+)
 
-var c34Broken int
+// c34Body decodes a body token: x<hex>, or g<len>.<seed> (generated bytes, for large bodies).
+func c34Body(tok string) ([]byte, bool) {
+	if strings.HasPrefix(tok, "x") {
+		b, err := verifh.Unhex(tok)
+		return b, err == nil
+	}
+	if strings.HasPrefix(tok, "g") {
+		if b, ok := c34bodyCache[tok]; ok {
+			return b, true
+		}
+		p := strings.SplitN(tok[1:], ".", 2)
+		if len(p) != 2 {
+			return nil, false
+		}
+		n, err1 := strconv.Atoi(p[0])
+		seed, err2 := strconv.Atoi(p[1])
+		if err1 != nil || err2 != nil || n < 0 || n > 64<<20 {
+			return nil, false
+		}
+		b := make([]byte, n)
+		x := uint32(seed)*2654435761 + 12345
+		for i := range b {
+			x = x*1664525 + 1013904223
+			b[i] = byte(x >> 24)
+		}
+		c34bodyCache[tok] = b
+		return b, true
+	}
+	return nil, false
+}
 
 // c34Exec runs one case; returns false if the case is malformed (nothing written).
 func c34Exec(t *verifh.T, c verifh.Case, tmp string) bool {
@@ -156,18 +337,28 @@ func c34Exec(t *verifh.T, c verifh.Case, tmp string) bool {
 	pathT, _ := c34KV(c.Cfg, "path")
 	hdrT, _ := c34KV(c.Cfg, "hdr")
 	impl, _ := c34KV(c.Cfg, "impl")
+	genT, hasGen := c34KV(c.Cfg, "gen") // how the harness produces the body (the transcript carries its token)
 	bodyT, _ := c34KV(c.Cfg, "body")
 	accT, _ := c34KV(c.Cfg, "accepted")
 	extraT, _ := c34KV(c.Cfg, "extra")
 	boT, _ := c34KV(c.Cfg, "bo")
+	tlsT, _ := c34KV(c.Cfg, "tls")
+	fbT, _ := c34KV(c.Cfg, "fb")
+	kaT, _ := c34KV(c.Cfg, "ka")
 	kind, okK := c34Kinds[impl]
 	path, err1 := verifh.Unstr(pathT)
-	body, err2 := verifh.Unhex(bodyT)
+	src := bodyT
+	if hasGen {
+		src = genT
+	}
+	body, okB := c34Body(src)
 	accepted, ok1 := c34Codes(accT)
 	extra, ok2 := c34Codes(extraT)
 	okM := map[string]bool{"GET": true, "POST": true, "PUT": true, "PATCH": true, "DELETE": true}[method]
-	if !okK || err1 != nil || err2 != nil || !ok1 || !ok2 || !okM || !strings.HasPrefix(path, "/") ||
-		(kind == "none" && len(body) != 0) || (boT == "none" && len(extra) != 0) {
+	okF := func(s string) bool { return s == "0" || s == "1" }
+	if !okK || err1 != nil || !okB || !ok1 || !ok2 || !okM || !strings.HasPrefix(path, "/") ||
+		(kind == "none" && len(body) != 0) || (boT == "none" && len(extra) != 0) || !okF(tlsT) || !okF(fbT) || !okF(kaT) ||
+		(fbT == "1" && tlsT == "0") {
 		return false
 	}
 	headers := map[string]string{}
@@ -188,6 +379,7 @@ func c34Exec(t *verifh.T, c verifh.Case, tmp string) bool {
 	sort.Strings(hs)
 	var script []string
 	doSend := false
+	faults := false
 	for _, op := range c.Ops {
 		if len(op) == 2 && op[0] == "op" && op[1] == "send" {
 			doSend = true
@@ -195,16 +387,49 @@ func c34Exec(t *verifh.T, c verifh.Case, tmp string) bool {
 		if len(op) == 2 && op[0] == "script" && !doSend {
 			script = nil
 			for _, a := range verifh.Unlist(op[1]) {
-				if a != "net" {
-					if n, err := strconv.Atoi(strings.TrimPrefix(a, "s")); err != nil || !strings.HasPrefix(a, "s") || n < 200 || n > 599 || n/100 == 3 {
+				switch {
+				case a == "net" || a == "refuse":
+					faults = true
+				case strings.HasPrefix(a, "n"):
+					if n, err := strconv.Atoi(a[1:]); err != nil || n < 0 {
 						return false
 					}
+					faults = true
+				case strings.HasPrefix(a, "s"):
+					if n, err := strconv.Atoi(a[1:]); err != nil || n < 200 || n > 599 || n/100 == 3 {
+						return false
+					}
+				default:
+					return false
 				}
 				script = append(script, a)
 			}
 		}
 	}
-	opts := []httputil.SendOption{httputil.SendTransport(c34Transport), httputil.SendHeaders(headers)}
+	if kaT == "1" && (faults || len(script) < 8) {
+		// with keep-alive net/http re-sends replayable requests on connections the server closed:
+		// keep-alive cases use status answers only, and enough of them that no default `net` is reached
+		return false
+	}
+	tr := c34Plain
+	switch {
+	case tlsT == "1" && kaT == "1":
+		tr = c34SecureKA
+	case tlsT == "1":
+		tr = c34Secure
+	case kaT == "1":
+		tr = c34PlainKA
+	}
+	var opts []httputil.SendOption
+	if tlsT == "1" {
+		opts = append(opts, httputil.SendTLSTransport(tr))
+		if fbT == "1" {
+			opts = append(opts, httputil.EnableHTTPFallback())
+		}
+	} else {
+		opts = append(opts, httputil.SendTransport(tr))
+	}
+	opts = append(opts, httputil.SendHeaders(headers))
 	if len(accepted) > 0 || accT == "-" {
 		opts = append(opts, httputil.SendAcceptedCodes(accepted...))
 	}
@@ -252,29 +477,35 @@ func c34Exec(t *verifh.T, c verifh.Case, tmp string) bool {
 		opts = append(opts, httputil.SendBody(rd))
 	}
 	if c34Srv == nil {
-		c34Srv = &c34Server{}
-		c34Srv.srv = httptest.NewUnstartedServer(c34Srv)
-		c34Srv.srv.Config.SetKeepAlivesEnabled(false)
-		c34Srv.srv.Start()
+		c34Start()
 	}
+	c34Srv.srv.SetKeepAlivesEnabled(kaT == "1")
 	c34Srv.mu.Lock()
 	c34Srv.caseID++
 	prefix := fmt.Sprintf("/c%d", c34Srv.caseID)
-	c34Srv.script, c34Srv.seen = script, nil
+	c34Srv.script, c34Srv.seen, c34Srv.next = script, nil, 0
 	c34Srv.mu.Unlock()
 
-	t.Cfg("method="+method, "path="+verifh.Str(path), "hdr="+verifh.List(hs), "kind="+kind, "impl="+impl, "body="+verifh.Hex(body),
-		"accepted="+accT, "extra="+extraT, "bo="+boT)
+	cfg := []string{"method=" + method, "path=" + verifh.Str(path), "hdr=" + verifh.List(hs), "kind=" + kind, "impl=" + impl}
+	if hasGen {
+		cfg = append(cfg, "gen="+genT)
+	}
+	cfg = append(cfg, "body="+c34BodyTok(body), "accepted="+accT, "extra="+extraT, "bo="+boT, "tls="+tlsT, "fb="+fbT, "ka="+kaT)
+	t.Cfg(cfg...)
 	t.Rec("script", []string{verifh.List(script)}, nil)
 	if !doSend {
 		t.End()
 		return true
 	}
+	scheme := "http://"
+	if tlsT == "1" {
+		scheme = "https://" // SendTLSTransport sets it anyway
+	}
 	var resp *http.Response
 	var err error
 	done := make(chan string, 1)
 	go func() {
-		done <- verifh.Protect(func() { resp, err = httputil.Send(method, c34Srv.srv.URL+prefix+path, opts...) })
+		done <- verifh.Protect(func() { resp, err = httputil.Send(method, scheme+c34Srv.url+prefix+path, opts...) })
 	}()
 	select {
 	case p := <-done:
@@ -307,14 +538,17 @@ func c34Exec(t *verifh.T, c verifh.Case, tmp string) bool {
 	default:
 		result = "other:" + verifh.Str(err.Error())
 	}
+	if kaT == "1" {
+		tr.CloseIdleConnections()
+	}
 	c34Srv.mu.Lock()
 	seen := append([]string{}, c34Srv.seen...)
 	c34Srv.mu.Unlock()
 	t.Op([]string{"send"}, append([]string{result}, seen...)...)
 	t.End()
-	want := fmt.Sprintf("a:%s|%s|%s|%s|0", method, verifh.Str(path), verifh.List(hs), verifh.Hex(body))
+	want := fmt.Sprintf("|%s|%s|%s|%s|0|", method, verifh.Str(path), verifh.List(hs), c34BodyTok(body))
 	for _, a := range seen {
-		if a != want {
+		if !strings.Contains(a, want) && !strings.Contains(a, "|p|") {
 			c34Broken++ // only used to stop generating early; the verdict is the driver's
 			break
 		}
@@ -322,11 +556,20 @@ func c34Exec(t *verifh.T, c verifh.Case, tmp string) bool {
 	return true
 }
 
-func c34Case(method, path string, hdr []string, impl string, body []byte, accepted, extra, bo string, script []string) verifh.Case {
-	return verifh.Case{Cfg: []string{"method=" + method, "path=" + verifh.Str(path), "hdr=" + verifh.List(hdr), "kind=" + c34Kinds[impl],
-		"impl=" + impl, "body=" + verifh.Hex(body), "accepted=" + accepted, "extra=" + extra, "bo=" + bo},
-		Ops: [][]string{{"script", verifh.List(script)}, {"op", "send"}}}
+type c34Opt struct{ tls, fb, ka string }
+
+func c34Case(method, path string, hdr []string, impl string, body string, accepted, extra, bo string, o c34Opt, script []string) verifh.Case {
+	cfg := []string{"method=" + method, "path=" + verifh.Str(path), "hdr=" + verifh.List(hdr), "kind=" + c34Kinds[impl], "impl=" + impl}
+	if strings.HasPrefix(body, "g") {
+		cfg = append(cfg, "gen="+body, "body=x")
+	} else {
+		cfg = append(cfg, "body="+body)
+	}
+	cfg = append(cfg, "accepted="+accepted, "extra="+extra, "bo="+bo, "tls="+o.tls, "fb="+o.fb, "ka="+o.ka)
+	return verifh.Case{Cfg: cfg, Ops: [][]string{{"script", verifh.List(script)}, {"op", "send"}}}
 }
+
+var c34HTTP = c34Opt{"0", "0", "0"}
 
 func TestVerif_C34(t *testing.T) {
 	tmp := t.TempDir()
@@ -361,7 +604,7 @@ func TestVerif_C34(t *testing.T) {
 		bos = append(bos, "3")
 	}
 	depth := verifh.Scale(3, 4)
-	body := []byte("payload-123")
+	body := verifh.Hex([]byte("payload-123"))
 	var scripts [][]string
 	var rec func(prefix []string, d int)
 	rec = func(prefix []string, d int) {
@@ -374,6 +617,12 @@ func TestVerif_C34(t *testing.T) {
 		}
 	}
 	rec(nil, depth)
+	bodyFor := func(impl, b string) string {
+		if c34Kinds[impl] == "none" {
+			return "x"
+		}
+		return b
+	}
 	for _, sc := range scripts {
 		for _, impl := range impls {
 			for _, bo := range bos {
@@ -384,11 +633,7 @@ func TestVerif_C34(t *testing.T) {
 					if bo == "none" && cf.extra != "-" {
 						continue
 					}
-					b := body
-					if c34Kinds[impl] == "none" {
-						b = nil
-					}
-					c34Exec(tr, c34Case("POST", "/x", []string{"X-V-A:1"}, impl, b, cf.accepted, cf.extra, bo, sc), tmp)
+					c34Exec(tr, c34Case("POST", "/x", []string{"X-V-A:1"}, impl, bodyFor(impl, body), cf.accepted, cf.extra, bo, c34HTTP, sc), tmp)
 					tr.Count("exhaustive_cases", 1)
 					if stop() {
 						return
@@ -397,54 +642,102 @@ func TestVerif_C34(t *testing.T) {
 			}
 		}
 	}
-	// a code listed both as accepted and as a RetryCodes status (known finding: it is retried)
-	for _, sc := range scripts {
-		if len(sc) > 2 {
-			continue
+	// (a2) the other fault kinds (server stops reading after k body bytes, connection closed before
+	// anything is read), https, and https with the plain-http fallback: scripts to depth 2 (3)
+	alpha2 := []string{"net", "n0", "n4", "n99", "refuse", "s200", "s503"}
+	var scripts2 [][]string
+	var rec2 func(prefix []string, d int)
+	rec2 = func(prefix []string, d int) {
+		scripts2 = append(scripts2, prefix)
+		if d == 0 {
+			return
 		}
-		for _, impl := range []string{"nil", "bytesreader"} {
-			b := body
-			if impl == "nil" {
-				b = nil
+		for _, a := range alpha2 {
+			rec2(append(prefix[:len(prefix):len(prefix)], a), d-1)
+		}
+	}
+	rec2(nil, verifh.Scale(2, 3))
+	for _, o := range []c34Opt{c34HTTP, {"1", "0", "0"}, {"1", "1", "0"}} {
+		for _, sc := range scripts2 {
+			for _, impl := range []string{"nil", "bytesreader", "buffer", "onlyreader", "file"} {
+				for _, bo := range []string{"none", "1", "2"} {
+					c34Exec(tr, c34Case("PUT", "/f", nil, impl, bodyFor(impl, body), "200", "-", bo, o, sc), tmp)
+					tr.Count("fault_and_tls_cases", 1)
+					if stop() {
+						return
+					}
+				}
 			}
-			c34Exec(tr, c34Case("POST", "/x", nil, impl, b, "200,404", "404", "2", sc), tmp)
+		}
+	}
+	// (a3) body sizes around the buffer sizes of io.Copy (32 KiB), bufio/chunking and beyond, with
+	// retrying scripts: a replay that is cut at some buffer size sends a different body
+	sizes := []int{32*1024 - 1, 32 * 1024, 32*1024 + 1, 64*1024 - 1, 64*1024 + 1, 1<<20 + 1}
+	if verifh.Thorough() {
+		sizes = append(sizes, 4096, 4097, 8<<20)
+	}
+	for i, n := range sizes {
+		for _, impl := range []string{"bytesreader", "strings", "onlyreader", "file"} {
+			for _, sc := range [][]string{{"s503", "s200"}, {"net", "s200"}, {"n5000", "s503", "s200"}} {
+				for _, o := range []c34Opt{c34HTTP, {"1", "1", "0"}} {
+					if o.tls == "1" && n > 1<<20+1 {
+						continue
+					}
+					c34Exec(tr, c34Case("PUT", "/big", nil, impl, fmt.Sprintf("g%d.%d", n, i+1), "200", "-", "2", o, sc), tmp)
+					tr.Count("large_body_cases", 1)
+					if stop() {
+						return
+					}
+				}
+			}
+		}
+	}
+	// (a4) keep-alive on both sides (the production transport): status answers only
+	for _, impl := range []string{"nil", "bytesreader", "onlyreader"} {
+		for _, sc := range [][]string{{"s503", "s200"}, {"s503", "s502", "s429", "s200"}, {"s200"}, {"s404"}, {"s503", "s503", "s503", "s503"}} {
+			for _, o := range []c34Opt{{"0", "0", "1"}, {"1", "0", "1"}} {
+				full := append(append([]string{}, sc...), "s500", "s500", "s500", "s500", "s500", "s500", "s500", "s500")
+				c34Exec(tr, c34Case("POST", "/ka", []string{"X-V-B:two"}, impl, bodyFor(impl, body), "200", "-", "3", o, full), tmp)
+				tr.Count("keepalive_cases", 1)
+			}
+		}
+	}
+	// a code listed both as accepted and as a RetryCodes status (known finding: it is retried)
+	for _, sc := range [][]string{{"s404"}, {"s404", "s200"}, {"s404", "s404"}, {"s200"}, {"s503", "s404"}} {
+		for _, impl := range []string{"nil", "bytesreader"} {
+			c34Exec(tr, c34Case("POST", "/x", nil, impl, bodyFor(impl, body), "200,404", "404", "2", c34HTTP, sc), tmp)
 			tr.Count("overlap_cases", 1)
 		}
 	}
 	// the default SendRetry backoff (2 retries, 250 ms apart) and the default accepted codes
 	for _, impl := range []string{"nil", "bytesreader", "onlyreader"} {
-		b := body
-		if impl == "nil" {
-			b = nil
-		}
-		c34Exec(tr, c34Case("PUT", "/d", nil, impl, b, "200", "-", "default", []string{"s503", "net", "s200"}), tmp)
+		c34Exec(tr, c34Case("PUT", "/d", nil, impl, bodyFor(impl, body), "200", "-", "default", c34HTTP, []string{"s503", "net", "s200"}), tmp)
 		tr.Count("default_backoff_cases", 1)
 	}
-	// (b) seeded random: methods, URIs, headers, body sizes up to 64 KiB+, longer scripts, odd codes
+	// (b) seeded random: methods, URIs, headers, body sizes, longer scripts, odd codes, all modes
 	r := verifh.NewRand(verifh.Seed(), "c34")
 	allImpls := []string{"nil", "nobody", "bytesreader", "buffer", "strings", "file", "onlyreader", "limit", "seeker"}
 	codes := []int{200, 200, 201, 202, 204, 400, 403, 404, 409, 429, 499, 500, 502, 503, 503, 504, 599}
 	for i := 0; i < verifh.Scale(1200, 40000); i++ {
 		impl := allImpls[r.Intn(len(allImpls))]
-		var b []byte
+		b := "x"
 		if c34Kinds[impl] != "none" {
 			switch r.Intn(12) {
 			case 0:
-				b = nil
 			case 1:
 				if i%40 == 1 {
-					b = r.Bytes(60000 + r.Intn(10000))
+					b = fmt.Sprintf("g%d.%d", 60000+r.Intn(10000), r.Intn(1000))
 				} else {
-					b = r.Bytes(4000 + r.Intn(5000))
+					b = fmt.Sprintf("g%d.%d", 4000+r.Intn(5000), r.Intn(1000))
 				}
 			default:
-				b = r.Bytes(1 + r.Intn(64))
+				b = verifh.Hex(r.Bytes(1 + r.Intn(64)))
 			}
 		}
 		method := r.Pick("POST", "PUT", "PATCH", "DELETE", "GET", "POST")
 		path := r.Pick("/x", "/a/b", "/q?k=v&z=1", "/namespace/n%2Fs/blobs/sha256:00", "/")
 		var hdr []string
-		for _, k := range []string{"X-V-A", "X-V-B", "Content-Type", "Authorization"} {
+		for _, k := range []string{"Authorization", "Content-Type", "X-V-A", "X-V-B"} {
 			if r.Chance(1, 3) {
 				hdr = append(hdr, k+":"+r.Pick("1", "two", "application/json", "Bearer.tok"))
 			}
@@ -470,19 +763,31 @@ func TestVerif_C34(t *testing.T) {
 		if bo != "none" && r.Chance(1, 3) {
 			extra = pick(1 + r.Intn(2))
 		}
+		o := c34HTTP
+		switch r.Intn(6) {
+		case 0:
+			o = c34Opt{"1", "0", "0"}
+		case 1, 2:
+			o = c34Opt{"1", "1", "0"}
+		}
 		var sc []string
 		for j, n := 0, r.Intn(7); j < n; j++ {
-			if r.Chance(1, 4) {
+			switch {
+			case r.Chance(1, 5):
 				sc = append(sc, "net")
-			} else if r.Chance(1, 2) {
+			case r.Chance(1, 8):
+				sc = append(sc, "refuse")
+			case r.Chance(1, 8):
+				sc = append(sc, "n"+strconv.Itoa(r.Intn(80)))
+			case r.Chance(1, 2):
 				sc = append(sc, r.Pick("s503", "s502", "s429", "s504"))
-			} else {
+			default:
 				sc = append(sc, "s"+strconv.Itoa(codes[r.Intn(len(codes))]))
 			}
 		}
-		c := c34Case(method, path, hdr, impl, b, accepted, extra, bo, sc)
+		c := c34Case(method, path, hdr, impl, b, accepted, extra, bo, o, sc)
 		if i < 3 {
-			tr.Sample(fmt.Sprint(c.Cfg[:5], " body=", len(b), " ", c.Cfg[6:], " ", sc))
+			tr.Sample(fmt.Sprint(c.Cfg, " ", sc))
 		}
 		c34Exec(tr, c, tmp)
 		tr.Count("random_cases_"+c34Kinds[impl], 1)
